@@ -130,7 +130,7 @@ func main() {
 			length = 40 + rnd.Intn(40)
 		}
 		var ops []memsim.Op
-		for j := 0; j < length; j++ {
+		for j := 0; j < length || (g.Pending() && j < length+8); j++ {
 			o := g.Next()
 			r := ex.Run(o)
 			g.Update(o, r, ex)
